@@ -179,6 +179,14 @@ def run(chk, binary):
             meta.append((mode, text, parts, ch, keys))
         # the same renderings after an earlier command whose key string holds '<', '>' or backslashes that are not aliases:
         # what the reader learnt from one key string must not reach the next
+        # the same key string as a cut command, and with --keep-mode and one more command behind it: whether its last key
+        # is spelled as an alias or as the raw byte makes no difference there either
+        for ch in choices[:4]:
+            keys = render(parts, ch)
+            jobs.append({"args": ["--json", "-c", "name=f", keys, "-m", "gg0", "-c", "name=buf", "vG$"], "stdin": text})
+            meta.append((mode + "+cut", text, ["-c"] + parts, ch, "-c " + keys))
+            jobs.append({"args": ["--json", "--keep-mode", "-m", keys, "-m", "x", "-m", "<esc>gg0", "-c", "name=buf", "vG$"], "stdin": text})
+            meta.append((mode + "+keep", text, ["keep"] + parts, ch, "--keep-mode " + keys))
         # a key string that is given up half way (an unknown ex command): the keys behind it are dropped for good, the
         # next command starts with its own keys only - the result is that of the scenario alone
         ch0 = choices[0]
@@ -204,6 +212,25 @@ def run(chk, binary):
                               {"mode": mode, "stdin": text, "keys_a": ref[1], "keys_b": keys, "stdout_a": ref[2][1].decode(errors="replace"),
                                "stdout_b": r[1].decode(errors="replace"), "rc": [ref[2][0], r[0]]})
                 break
+    # ---- B2. a whole argument that is one special key: alias and raw byte are the same command ----
+    WHOLE = [("<CR>", "\r"), ("<enter>", "\r"), ("<tab>", "\t"), ("<esc>", "\x1b"), ("<BS>", "\x7f"), ("<space>", " ")]
+    wjobs, wmeta = [], []
+    for alias, raw in WHOLE:
+        for pre_args in ([], ["-m", "w"], ["--keep-mode", "-m", "A"], ["--keep-mode", "-m", "ix"], ["-m", "jl"]):
+            for sp in (alias, raw):
+                if alias == "<space>" and sp == alias:
+                    continue
+                wjobs.append({"args": ["--json"] + pre_args + ["-m", sp, "-m", "<esc>", "-c", "name=cur", "v", "-m", "gg0", "-c", "name=buf", "vG$"], "stdin": "one two\nthree four\nfive\n"})
+                wmeta.append((alias, tuple(pre_args), sp))
+    wres = cli_map(binary, wjobs)
+    wgroups = {}
+    for (alias, pre_args, sp), r in zip(wmeta, wres):
+        chk.count(("whole", alias, pre_args, sp), nontrivial=True)
+        wgroups.setdefault((alias, pre_args), []).append((sp, r))
+    for (alias, pre_args), lst in wgroups.items():
+        if len(lst) == 2 and (lst[0][1][0], lst[0][1][1]) != (lst[1][1][0], lst[1][1][1]):
+            chk.violation("spec:alias and raw notation behave differently", {"mode": "whole argument", "before": list(pre_args), "keys_a": lst[0][0], "keys_b": repr(lst[1][0]),
+                          "stdout_a": lst[0][1][1].decode(errors="replace"), "stdout_b": lst[1][1][1].decode(errors="replace")})
     # ---- C. insert-mode texts with '<', '>', '\\' and multi-byte are taken literally ----
     jobs = []
     meta = []
